@@ -6,9 +6,16 @@ META = dict(
   assumptions=['|coordinates| <= 2^62 so coordinate differences do not overflow (as the property states)'],
   outside=[],
 )
+CP3 = 'double Clipper2Lib::CrossProduct<long>(Clipper2Lib::Point<long> const&, Clipper2Lib::Point<long> const&, Clipper2Lib::Point<long> const&)'
 OBLIGATIONS = [
   O('C18.a-multiply-exact', 'c18_core.cpp', 'harness_multiply', backend='cvc5int', olevel='O1', bound='all 2^128 (a,b)', desc='Multiply == exact 128-bit product', timeout=300),
   O('C18.b-cps128', 'c18_core.cpp', 'harness_cps128', backend=['cvc5int','z3'], crosscheck=True, bound='all int64 points whose differences fit int64', desc='CrossProductSign == sign of exact 128-bit cross product'),
   O('C18.b-pae128', 'c18_core.cpp', 'harness_pae128', backend=['cvc5int','z3'], crosscheck=True, bound='all int64', desc='ProductsAreEqual exact'),
   O('C18.b-iscollinear128', 'c18_core.cpp', 'harness_iscollinear128', backend=['cvc5int','z3'], crosscheck=True, bound='all int64 points whose differences fit int64', desc='IsCollinear exact and consistent with CrossProductSign'),
+  O('C18.c-crossproduct-exact', 'c18_pip.cpp', 'harness_crossproduct_exact', lift=[CP3, 'harness_crossproduct_exact'], backend=['z3', 'cvc5int', 'cadical'],
+    bound='|coord|<=2^25', desc='double CrossProduct(p1,p2,p3) == exact integer cross product (exact-double lifting; side conditions |v|<=2^53 asserted)'),
+  O('C18.c-pip-3', 'c18_pip.cpp', 'harness_pip', defs=['NV=3'], unwind=8, olevel='INL', replace={CP3: 'stub_cp'},
+    tiers='t', timeout=3000, bound='triangles, |coord|<=2^25, all query points', desc='PointInPolygon == exact even-odd/on-boundary classification (orientation kernel memoised per edge)'),
+  O('C18.c-pip-4', 'c18_pip.cpp', 'harness_pip', defs=['NV=4'], unwind=10, olevel='INL', replace={CP3: 'stub_cp'},
+    bound='quadrilaterals (any, incl. self-intersecting), |coord|<=2^25', desc='PointInPolygon exact', tiers='t', timeout=1800),
 ]
